@@ -267,6 +267,22 @@ class C06(Prop):
                     out.append(('jump-orientation', 'model jump changed strike/dip/slip: %r -> %r' % (xi, x), None))
                 if not case['dc'] and (x['gamma'] != 0 or x['delta'] != 0):
                     out.append(('jump-not-dc', 'jump to the double-couple model gave gamma=%r delta=%r' % (x['gamma'], x['delta']), None))
+                if case['dc']:
+                    # the dimension-balancing draw: first in-range values of gamma_dc * z, then of delta_dc * z, from the same stream
+                    zs, pos = list(case['zs']), 0
+                    want = []
+                    for wd, lim in ((case['w']['gamma_dc'], PI / 6), (case['w']['delta_dc'], PI / 2)):
+                        v = None
+                        while pos < len(zs):
+                            c_ = wd * zs[pos]
+                            pos += 1
+                            if abs(c_) <= lim:
+                                v = c_
+                                break
+                        want.append(v)
+                    if None not in want and not (close(want[0], x['gamma'], atol=1e-12) and close(want[1], x['delta'], atol=1e-12)):
+                        out.append(('jump-draw', 'dimension-balancing draw gave gamma=%r delta=%r; the first in-range draws with the balancing widths (%r, %r) are %r, %r'
+                                    % (x['gamma'], x['delta'], case['w']['gamma_dc'], case['w']['delta_dc'], want[0], want[1]), None))
             elif not case['dc']:
                 # first in-range draw about the current state
                 zs = case['zs']
